@@ -7,6 +7,7 @@ import PetgraphModel.Proofs.C11W3Spfa
 import PetgraphModel.Proofs.C11W4
 import PetgraphModel.Proofs.C11W4Complete
 import PetgraphModel.Proofs.C11W4Driver
+import PetgraphModel.Proofs.C11W6
 /-
 C11 — `bellman_ford`, `spfa`, `floyd_warshall(_path)`, `find_negative_cycle` are exact with
 negative costs.
@@ -874,24 +875,47 @@ theorem C11_driver_float_scope (lines : List (List String × String)) (s : Nat)
     srcB (C11W4D.run lines).v s = true ∧ fitBfB (C11W4D.run lines).v = true :=
   C11W4D.preFloat_scope (C11W4D.run_inv lines) h
 
-/-- `spfa <ty>` requests that are judged at all lie in the scope of `C11_spfa_checked` for the
-model's cost type `measOf ty`, and of `C11_spfa_values_exact_range` when `ty = f64` -/
+/-- `spfa <ty>` requests that are judged at all lie in the scope of `C11_spfa_checked` for
+`proofMeas ty` — the model's cost type `measOf ty` itself unless `ty` is unsigned, and then its signed twin
+together with `nonnegB` (scope of `C11_spfa_checked_unsigned`) — and of `C11_spfa_values_exact_range`
+(`_f32`) when `ty = f64` (`f32`) -/
 theorem C11_driver_spfa_scope (lines : List (List String × String)) (ty : String) (s : Nat)
     (h : C11.preSpfa (C11W4D.run lines) ty s = none) :
     viewArcsB (C11W4D.run lines).v = true ∧ wfB (C11W4D.run lines).v.g = true ∧
     srcB (C11W4D.run lines).v s = true ∧ nbB (C11W4D.run lines).v = true ∧
-    fitSpfaB (C11.measOf ty) (C11W4D.run lines).v = true ∧
-    (ty = "f64" → fitSpfaB Meas.exactF64 (C11W4D.run lines).v = true) := by
-  obtain ⟨h1, h2, h3, h4, h5, h6⟩ := C11W4D.preSpfa_scope (C11W4D.run_inv lines) h
-  exact ⟨h1, h2, h3, h4, h5, fun hty => by subst hty; rw [C11W4D.rangeOf_f64] at h6; exact h6⟩
+    fitSpfaB (C11.proofMeas ty) (C11W4D.run lines).v = true ∧
+    (C11.unsignedTy ty = false → C11.proofMeas ty = C11.measOf ty) ∧
+    (C11.unsignedTy ty = true → C11.proofMeas ty = (C11.measOf ty).twin ∧ nonnegB (C11W4D.run lines).v.g = true) ∧
+    (ty = "f64" → fitSpfaB Meas.exactF64 (C11W4D.run lines).v = true) ∧
+    (ty = "f32" → fitSpfaB Meas.exactF32 (C11W4D.run lines).v = true) := by
+  obtain ⟨h1, h2, h3, h4, h5, h6, h7⟩ := C11W4D.preSpfa_scope (C11W4D.run_inv lines) h
+  refine ⟨h1, h2, h3, h4, h5, C11W4D.proofMeas_signed, fun hu => ⟨by simp [C11.proofMeas, hu], ?_⟩,
+    fun hty => by subst hty; rw [C11W4D.rangeOf_f64] at h6; exact h6,
+    fun hty => by subst hty; rw [C11W4D.rangeOf_f32] at h6; exact h6⟩
+  simpa [C11.signOk, hu] using h7
 
-/-- `fw` / `fwp` requests that are judged at all lie in the scope of `C11_floyd_checked` -/
+/-- `fw` / `fwp` requests that are judged at all lie in the scope of `C11_floyd_checked`
+(`C11_floyd_checked_unsigned` for the unsigned cost types) -/
 theorem C11_driver_floyd_scope (lines : List (List String × String)) (ty : String)
     (h : C11.preFw (C11W4D.run lines) ty = none) :
-    wfB (C11W4D.run lines).v.g = true ∧ fitFloydB (C11.measOf ty) (C11W4D.run lines).v = true ∧
-    (ty = "f64" → fitFloydB Meas.exactF64 (C11W4D.run lines).v = true) := by
-  obtain ⟨h1, h2, h3⟩ := C11W4D.preFw_scope (C11W4D.run_inv lines) h
-  exact ⟨h1, h2, fun hty => by subst hty; rw [C11W4D.rangeOf_f64] at h3; exact h3⟩
+    wfB (C11W4D.run lines).v.g = true ∧ fitFloydB (C11.proofMeas ty) (C11W4D.run lines).v = true ∧
+    (C11.unsignedTy ty = false → C11.proofMeas ty = C11.measOf ty) ∧
+    (C11.unsignedTy ty = true → C11.proofMeas ty = (C11.measOf ty).twin ∧ nonnegB (C11W4D.run lines).v.g = true) ∧
+    (ty = "f64" → fitFloydB Meas.exactF64 (C11W4D.run lines).v = true) ∧
+    (ty = "f32" → fitFloydB Meas.exactF32 (C11W4D.run lines).v = true) := by
+  obtain ⟨h1, h2, h3, h4⟩ := C11W4D.preFw_scope (C11W4D.run_inv lines) h
+  refine ⟨h1, h2, C11W4D.proofMeas_signed, fun hu => ⟨by simp [C11.proofMeas, hu], ?_⟩,
+    fun hty => by subst hty; rw [C11W4D.rangeOf_f64] at h3; exact h3,
+    fun hty => by subst hty; rw [C11W4D.rangeOf_f32] at h3; exact h3⟩
+  simpa [C11.signOk, hu] using h4
+
+/-- `bf32` / `fnc32` requests (f32 edge weights) that are judged at all lie in the scope of
+`C11_bellman_ford_checked`, `C11_find_negative_cycle_checked`, `C11_bellman_ford_values_exact_range_f32` -/
+theorem C11_driver_float32_scope (lines : List (List String × String)) (s : Nat)
+    (h : C11.preFloat32 (C11W4D.run lines) s = none) :
+    viewArcsB (C11W4D.run lines).v = true ∧ wfB (C11W4D.run lines).v.g = true ∧
+    srcB (C11W4D.run lines).v s = true ∧ fitBf32B (C11W4D.run lines).v = true :=
+  C11W4D.preFloat32_scope (C11W4D.run_inv lines) h
 
 /-- outside the scope nothing is judged: the failed pre-check is the verdict -/
 theorem C11_driver_blocked (d : C11.DState) (ty s impl why : String) :
@@ -902,6 +926,29 @@ theorem C11_driver_blocked (d : C11.DState) (ty s impl why : String) :
   ⟨fun h => ⟨C11W4D.step_bf_blocked d s impl why h, C11W4D.step_fnc_blocked d s impl why h⟩,
    C11W4D.step_spfa_blocked d ty s impl why, C11W4D.step_fw_blocked d ty impl why⟩
 
+/-- the same for the f32 requests -/
+theorem C11_driver_blocked_f32 (d : C11.DState) (s impl why : String)
+    (h : C11.preFloat32 d (s.toNat?.getD 0) = some why) :
+    (C11.step d ["bf32", s] impl).2 = why ∧ (C11.step d ["fnc32", s] impl).2 = why :=
+  C11W4D.step_bf32_blocked d s impl why h
+
+/-- **the KNOWN classification is narrow**: an answer that the judge rejects for the abstract graph AND for
+the graph the adaptor's edge references describe (`effView`) is never classified as a known finding — the
+verdict is the `SPECFAIL` of the judge (or the failed side condition of the effective view) -/
+theorem C11_known_only_for_effective_graph (d : C11.DState) (judge : MGraph → Option String)
+    (model : View → String) (impl why w : String)
+    (h1 : judge d.v.g = some why) (h2 : judge (effView d.quirk d.v).g = some w) :
+    C11.verdictQ d judge model impl = s!"SPECFAIL {why}" ∨
+    C11.verdictQ d judge model impl =
+      "SPECFAIL side condition ViewArcs / WellFormed does not hold for the effective view of the adaptor" := by
+  unfold C11.verdictQ
+  split
+  · left; simp [C11.verdict, h1]
+  · simp only
+    split
+    · right; rfl
+    · left; simp [h1, h2]
+
 set_option exponentiation.threshold 1100 in
 set_option maxRecDepth 20000 in
 /-- non-vacuity: on `okView` every pre-check passes (the requests are judged), and each can block -/
@@ -910,6 +957,219 @@ example : C11.preFloat { v := okView, ok := true } 0 = none ∧
     C11.preFw { v := okView, ok := true } "i64" = none ∧
     (C11.preFloat { v := okView, ok := false } 0).isSome = true ∧
     (C11.preSpfa { v := okView, ok := true } "i32" 9).isSome = true := by
+  decide
+
+/-! ## wave 6 — the corners: every `BoundedMeasure` cost type, `f32`, the unsigned types
+
+`Model/C11W6.lean`, `Proofs/C11W6.lean`.  The harness runs `spfa` / `floyd_warshall(_path)` with all fourteen
+`BoundedMeasure` types and `bellman_ford` / `find_negative_cycle` with `f32` weights, and exercises
+`BoundedMeasure::{max, min, overflowing_add}` directly (`consts`, `oadd` lines, judged against `Meas`). -/
+
+/-- **`Meas.oadd` is `overflowing_add`**: the flag tells exactly whether the exact sum leaves
+`[min(), max()]`; without overflow the value is the exact sum; on overflow it is the sum wrapped by
+`max() − min() + 1` (the two's-complement result of the integer types) -/
+theorem C11_oadd_spec (B : Meas) (a b : Int) :
+    ((B.oadd a b).2 = true ↔ (a + b < B.min ∨ B.max < a + b)) ∧
+    ((B.oadd a b).2 = false → (B.oadd a b).1 = a + b) ∧
+    (B.max < a + b → (B.oadd a b).1 = a + b - (B.max - B.min + 1)) ∧
+    (a + b < B.min → a + b ≤ B.max → (B.oadd a b).1 = a + b + (B.max - B.min + 1)) :=
+  C11W6.oadd_spec B a b
+
+/-- … and for operands inside the range the wrapped value is inside the range again (signed types:
+`−min() ≤ max() + 1`; unsigned: `min() = 0`) -/
+theorem C11_oadd_wrap_in_range (B : Meas) (a b : Int) (ha : B.min ≤ a ∧ a ≤ B.max) (hb : B.min ≤ b ∧ b ≤ B.max)
+    (hneg : B.min ≤ 0) (hlt : B.min < 0 → -B.min ≤ B.max + 1) (h0 : 0 ≤ B.max) :
+    B.min ≤ (B.oadd a b).1 ∧ (B.oadd a b).1 ≤ B.max :=
+  C11W6.oadd_wrap_in_range B a b ha hb hneg hlt h0
+
+/-- the constants the `consts` lines are compared with: `i8::MAX + 1` wraps to `i8::MIN`, `u8::MAX + 1` to 0,
+`0u8 − …` cannot occur (costs of unsigned types are non-negative), `f32::MAX` is `(2^24−1)·2^104` -/
+example : (Meas.ofBits true 8).oadd 127 1 = (-128, true) ∧ (Meas.ofBits false 8).oadd 255 1 = (0, true) ∧
+    (Meas.ofBits true 8).oadd (-128) (-1) = (127, true) ∧ (Meas.ofBits true 8).oadd 100 27 = (127, false) ∧
+    (Meas.ofBits true 32).max = Meas.i32.max ∧ (Meas.ofBits true 32).min = Meas.i32.min ∧
+    (Meas.ofBits true 64).max = Meas.i64.max ∧ (Meas.ofBits true 64).min = Meas.i64.min := by decide
+
+set_option exponentiation.threshold 1100 in
+set_option maxRecDepth 20000 in
+example : Meas.f32.max = (2^24 - 1) * 2^104 ∧ Meas.f64.max = (2^53 - 1) * 2^971 := by decide
+
+/-- `nonnegB`: no edge has a negative cost -/
+theorem C11_nonneg_check (g : MGraph) (h : nonnegB g = true) : ∀ e ∈ g.edges, 0 ≤ e.w := by
+  intro e he
+  have := List.all_eq_true.mp h e he
+  simpa using this
+
+/-- **spfa with non-negative costs never looks at `min()`**: two cost types with the same `max() ≥ 0` and
+`min() ≤ 0` give the same run (labels are sums of non-negative costs; the underflow branch of
+`overflowing_add` is dead) — for every view and source, no width hypothesis -/
+theorem C11_spfa_min_irrelevant (B B' : Meas) (hm : B.max = B'.max) (h0 : 0 ≤ B.max) (hB : B.min ≤ 0)
+    (hB' : B'.min ≤ 0) (v : View) (hnn : ∀ e ∈ v.g.edges, 0 ≤ e.w) (s : Nat) :
+    spfa B v s = spfa B' v s :=
+  C11W6.spfa_min_irrelevant hm h0 hB hB' v hnn s
+
+/-- **floyd_warshall(_path) with non-negative costs never looks at `min()`** -/
+theorem C11_floyd_min_irrelevant (B B' : Meas) (hm : B.max = B'.max) (h0 : 0 ≤ B.max) (hB : B.min ≤ 0)
+    (hB' : B'.min ≤ 0) (v : View) (hnn : ∀ e ∈ v.g.edges, 0 ≤ e.w) :
+    floydWarshall B v = floydWarshall B' v :=
+  C11W6.floyd_min_irrelevant hm h0 hB hB' v hnn
+
+/-- one arc `0 → 1` of cost `−1` -/
+def negArcView : View :=
+  { g := { directed := true, nodes := [0, 1], edges := [⟨0, 0, 1, -1⟩] },
+    nb := 2, ix := [(0, 0), (1, 1)],
+    out := [(0, [(1, 0)]), (1, [])],
+    inn := [(0, []), (1, [(0, 0)])] }
+
+/-- the statement is false without the sign condition: one arc of cost `−1` out of the source, `u8`
+(`0 + (−1)` underflows and is skipped) against its signed twin -/
+theorem C11_spfa_min_irrelevant_needs_nonneg_witness :
+    spfa (Meas.ofBits false 8) negArcView 0 ≠ spfa (Meas.ofBits false 8).twin negArcView 0 := by
+  intro h
+  have h' : (match spfa (Meas.ofBits false 8) negArcView 0 with | some (some st) => tget st.d 1 | _ => none) =
+      (match spfa (Meas.ofBits false 8).twin negArcView 0 with | some (some st) => tget st.d 1 | _ => none) := by
+    rw [h]
+  revert h'
+  decide
+
+/-- **spfa, all clauses, for an UNSIGNED cost type** (`min() = 0 ≤ max()`), Boolean hypotheses only: the
+`graph`-line checks, `srcB`, `nbB`, `nonnegB`, and `fitSpfaB` for the signed twin (same `max()`) -/
+theorem C11_spfa_checked_unsigned (B : Meas) (h0 : 0 ≤ B.max) (hmin : B.min ≤ 0) (v : View) (s : Nat)
+    (hv : viewArcsB v = true) (hwf : wfB v.g = true) (hs : srcB v s = true) (hnb : nbB v = true)
+    (hnn : nonnegB v.g = true) (hfit : fitSpfaB B.twin v = true) :
+    spfa B v s ≠ none ∧
+    (spfa B v s = some none ↔ NegCycleReachable v.g s) ∧
+    ∀ st, spfa B v s = some (some st) →
+      (∀ x y, tget st.d x = some y → IsShortest v.g s x y ∧ y < B.max ∧ TreeWalk v.g (tget st.p) s x y) ∧
+      (∀ x, tget st.d x = none ↔ ¬ ∃ c, WalkCost v.g s x c) ∧
+      (∀ x, tget st.p x = none ↔ (x = s ∨ ¬ ∃ c, WalkCost v.g s x c)) := by
+  have he : spfa B v s = spfa B.twin v s :=
+    C11W6.spfa_min_irrelevant (B := B) (B' := B.twin) rfl h0 hmin (by simp only [Meas.twin]; omega) v (C11_nonneg_check _ hnn) s
+  rw [he]
+  exact C11_spfa_checked B.twin v s hv hwf hs hnb hfit
+
+/-- **floyd_warshall / floyd_warshall_path, all clauses, for an UNSIGNED cost type** -/
+theorem C11_floyd_checked_unsigned (B : Meas) (h0 : 0 ≤ B.max) (hmin : B.min ≤ 0) (v : View)
+    (hwf : wfB v.g = true) (hnn : nonnegB v.g = true) (hfit : fitFloydB B.twin v = true) :
+    (floydWarshall B v = none ↔ NegCycle v.g) ∧
+    ∀ st, floydWarshall B v = some st →
+      ∀ i ∈ v.g.nodes,
+        (∀ j y, tget st.d (i, j) = some y → IsShortest v.g i j y) ∧
+        (∀ j, tget st.d (i, j) = none ↔ ¬ ∃ c, WalkCost v.g i j c) ∧
+        (∀ j y, tget st.d (i, j) = some y →
+          TreeWalk v.g (fun x => if x == i then none else tget st.p (i, x)) i j y) ∧
+        (∀ j, j ≠ i →
+          (tget st.p (i, j) = none ↔ ¬ ∃ c, WalkCost v.g i j c) ∧
+          (∀ q, tget st.p (i, j) = some q →
+            ∃ a w, IsShortest v.g i q a ∧ tget st.d (i, q) = some a ∧ (q, j, w) ∈ v.g.arcs ∧
+              tget st.d (i, j) = some (a + w) ∧ IsShortest v.g i j (a + w))) := by
+  have he : floydWarshall B v = floydWarshall B.twin v :=
+    C11W6.floyd_min_irrelevant (B := B) (B' := B.twin) rfl h0 hmin (by simp only [Meas.twin]; omega) v (C11_nonneg_check _ hnn)
+  rw [he]
+  exact C11_floyd_checked B.twin v hwf hfit
+
+/-- non-vacuity: `u8` on a view with non-negative costs passes every check of the two theorems above
+(and `okView`, which has a negative cost, does not pass `nonnegB`) -/
+example : nonnegB okView.g = false ∧
+    (let v : View := { okView with g := { okView.g with edges := okView.g.edges.map fun e => { e with w := e.w.natAbs } } }
+     viewArcsB v = true ∧ wfB v.g = true ∧ srcB v 0 = true ∧ nbB v = true ∧ nonnegB v.g = true ∧
+     fitSpfaB (Meas.ofBits false 8).twin v = true ∧ fitFloydB (Meas.ofBits false 8).twin v = true ∧
+     (spfa (Meas.ofBits false 8) v 0).isSome = true) := by
+  decide
+
+/-! ### `f32` used as an integer type (`bf32`, `fnc32`, the `f32` instances of spfa / floyd_warshall) -/
+
+/-- a check passed for the range `±2^24` of exactly represented integers also holds for `f32` itself -/
+theorem C11_fit_exact_f32_check (L Wm : Nat) (h : fitsB Meas.exactF32 L Wm = true) : fitsB Meas.f32 L Wm = true :=
+  fitsB_mono (by decide) (by decide) h
+
+/-- `bellman_ford::<f32>` / `find_negative_cycle::<f32>`: under `fitBf32B` every label and every candidate
+sum of the relaxation phase lies strictly inside `±2^24`, where `f32` arithmetic on integers is exact -/
+theorem C11_bellman_ford_values_exact_range_f32 (v : View) (s : Nat)
+    (hv : viewArcsB v = true) (hfit : fitBf32B v = true) :
+    (∀ x y, tget (bfRelax v s).d x = some y → -(2^24 : Int) < y ∧ y < 2^24) ∧
+    (∀ a b w, (a, b, w) ∈ v.g.arcs → ∀ x, tget (bfRelax v s).d a = some x → -(2^24 : Int) < x + w ∧ x + w < 2^24) := by
+  have hv' := viewArcsB_sound v hv
+  obtain ⟨hWm, hW⟩ := C11_cost_bound_check v.g
+  obtain ⟨h1, h2⟩ := bfRelax_bound v hv' s _ (outOf_length_le v) _ hWm hW
+  have hf := fitsB_sound hfit
+  simp only [bfLenC, Meas.exactF32] at hf
+  have hmono : ((((v.g.nodes.length - 1) * (v.g.nodes.length * maxOutLen v) : Nat) : Int)) * ((maxAbsW v.g : Nat) : Int)
+      ≤ ((((v.g.nodes.length - 1) * (v.g.nodes.length * maxOutLen v) + 1 : Nat) : Int)) * ((maxAbsW v.g : Nat) : Int) :=
+    Int.mul_le_mul_of_nonneg_right (by omega) hWm
+  constructor
+  · intro x y hx
+    have := h1 x y hx
+    omega
+  · intro a b w harc x hx
+    have := h2 a b w harc x hx
+    omega
+
+/-- `spfa::<f32>`: labels and candidate sums of an `Ok` result -/
+theorem C11_spfa_values_exact_range_f32 (B : Meas) (hB : 0 < B.max) (v : View) (s : Nat)
+    (hv : viewArcsB v = true) (hwf : wfB v.g = true) (hs : srcB v s = true)
+    (hfit : fitSpfaB Meas.exactF32 v = true) (st : SP) (h : spfa B v s = some (some st)) :
+    (∀ x y, tget st.d x = some y → -(2^24 : Int) < y ∧ y < 2^24) ∧
+    (∀ a b w, (a, b, w) ∈ v.g.arcs → ∀ x, tget st.d a = some x → -(2^24 : Int) < x + w ∧ x + w < 2^24) := by
+  have hv' := viewArcsB_sound v hv
+  have hwf' := wfB_sound _ hwf
+  have hs' := srcB_sound hs
+  obtain ⟨hWm, hW⟩ := C11_cost_bound_check v.g
+  have hf := fitSpfaB_sound hfit
+  simp only [Meas.exactF32] at hf
+  have h1 := spfa_label_bound B hB v hv' hwf' s hs' _ (outOf_length_le v) _ hWm hW st h
+  have h2 := spfa_sum_bound B hB v hv' hwf' s hs' _ (outOf_length_le v) _ hWm hW st h
+  have hmono : (((v.g.nodes.length * v.nb * maxOutLen v : Nat) : Int)) * ((maxAbsW v.g : Nat) : Int)
+      ≤ (((v.g.nodes.length * v.nb * maxOutLen v + v.g.nodes.length : Nat) : Int)) * ((maxAbsW v.g : Nat) : Int) :=
+    Int.mul_le_mul_of_nonneg_right (by omega) hWm
+  constructor
+  · intro x y hx
+    have := h1 x y hx
+    omega
+  · intro a b w harc x hx
+    have := h2 a b w harc x hx
+    unfold spfaLen at this
+    omega
+
+/-- `floyd_warshall::<f32>`: entries of an `Ok` result (sums of two entries stay below `2·|V|·Wm`) -/
+theorem C11_floyd_values_exact_range_f32 (B : Meas) (v : View) (hwf : wfB v.g = true)
+    (hfitB : fitFloydB B v = true) (hfit : fitFloydB Meas.exactF32 v = true)
+    (st : FW) (h : floydWarshall B v = some st) :
+    ∀ i j y, tget st.d (i, j) = some y → -(2^23 : Int) < y ∧ y < 2^23 := by
+  have hwf' := wfB_sound _ hwf
+  obtain ⟨hWm, hW⟩ := C11_cost_bound_check v.g
+  have hb := floyd_entry_bound B v hwf' _ hWm hW (fitFloydB_sound hfitB) st h
+  have hf := fitFloydB_sound hfit
+  simp only [Meas.exactF32] at hf
+  have hmono : (((v.g.nodes.length - 1 : Nat) : Int)) * ((maxAbsW v.g : Nat) : Int)
+      ≤ ((v.g.nodes.length : Nat) : Int) * ((maxAbsW v.g : Nat) : Int) :=
+    Int.mul_le_mul_of_nonneg_right (by omega) hWm
+  intro i j y hy
+  have := hb i j y hy
+  omega
+
+/-- non-vacuity: `okView` passes the `f32` checks -/
+example : fitBf32B okView = true ∧ fitSpfaB Meas.exactF32 okView = true ∧ fitFloydB Meas.exactF32 okView = true := by
+  decide
+
+/-! ### effective views (open findings D23 / D6 seen through an adaptor)
+
+`effView q v` (Model/C11W6.lean) is the directed graph that the adaptor's edge references describe.  The
+driver evaluates `wfB` and `viewArcsB` for it before it runs a model on it (so `C11_view_check_sound`,
+`C11_wf_check_sound` and the `…_checked` theorems apply to that run as to any other), and classifies a
+rejected answer as KNOWN only if the same (sound) judge accepts it for `(effView q v).g`. -/
+
+/-- the recorded witness shape of D23 (`b → a`, `b → c`, loop `a → a`; a = 0, b = 1, c = 2) as the
+`UndirectedAdaptor` lists it -/
+def d23View : View :=
+  { g := { directed := false, nodes := [0, 1, 2], edges := [⟨0, 1, 0, 5⟩, ⟨1, 1, 2, 7⟩, ⟨2, 0, 0, 1⟩] },
+    nb := 3, ix := [],
+    out := [(0, [(1, 0), (0, 2), (0, 2)]), (1, [(0, 0), (2, 1)]), (2, [(1, 1)])],
+    inn := [] }
+
+/-- through `UndirectedAdaptor` nodes `a` and `c` see their incoming edge as a self-loop -/
+example : (effView "d23" d23View).g.edges
+      = [⟨0, 0, 0, 5⟩, ⟨1, 0, 0, 1⟩, ⟨2, 0, 0, 1⟩, ⟨3, 1, 0, 5⟩, ⟨4, 1, 2, 7⟩, ⟨5, 2, 2, 7⟩] ∧
+    viewArcsB (effView "d23" d23View) = true ∧ wfB (effView "d23" d23View).g = true := by
   decide
 
 /-! ## wave 4 — completeness of the judges
